@@ -211,23 +211,28 @@ def _candidates(it, out, cur, compress):
         raise KeyError(k)
 
 
-def structural_parses(items, out, compress, limit=8):
-    res = []
+def structural_parses(items, out, compress, budget=20000):
+    """generator of structural parses (lists of (offset, size, units) per item), most natural first; the search
+    visits at most `budget` nodes so that a wrong output cannot make the walker explode"""
     acc = []
+    steps = [0]
 
     def rec(i, cur):
-        if len(res) >= limit:
+        steps[0] += 1
+        if steps[0] > budget:
             return
         if i == len(items):
             if cur == len(out):
-                res.append(list(acc))
+                yield list(acc)
             return
         for size, units in _candidates(items[i], out, cur, compress):
             acc.append((cur, size, units))
-            rec(i + 1, cur + size)
+            yield from rec(i + 1, cur + size)
             acc.pop()
-    rec(0, 0)
-    return res
+    import sys
+    if sys.getrecursionlimit() < 4 * len(items) + 200:
+        sys.setrecursionlimit(4 * len(items) + 200)
+    yield from rec(0, 0)
 
 
 SENT = [0] + [0x51000000 + 0x01010101 * r for r in range(1, 32)]     # distinct sentinels, nothing near a boundary
@@ -375,12 +380,10 @@ def walk(items, out, compress):
     """-> Walk: the structural parse with the fewest semantic errors (none when the output is right)"""
     w = Walk()
     out = bytes(out)
-    parses = structural_parses(items, out, compress)
-    if not parses:
-        w.errors = [('structure', -1, 'the output (%d bytes) is not the in-order concatenation of the items' % len(out))]
-        return w
     best = None
-    for places in parses:
+    tried = 0
+    for places in structural_parses(items, out, compress):
+        tried += 1
         labels = {it['name']: pl[0] for it, pl in zip(items, places) if it['k'] == 'label'}
         errs = []
         for idx, (it, pl) in enumerate(zip(items, places)):
@@ -391,8 +394,11 @@ def walk(items, out, compress):
             check_item(it, pl, labels, out, compress, errs, idx)
         if best is None or len(errs) < len(best[2]):
             best = (places, labels, errs)
-        if not errs:
+        if not errs or tried >= 8:
             break
+    if best is None:
+        w.errors = [('structure', -1, 'the output (%d bytes) is not the in-order concatenation of the items' % len(out))]
+        return w
     w.places, w.labels, w.errors = best
     w.ok = not w.errors
     return w
